@@ -47,6 +47,13 @@ pub enum ShaderRef {
     Dense { kb: u32, pad: u32 },
     /// Bulk: `structs` storage structs with `members` vec4 members each (megabytes of bindings).
     Bulk { structs: u32, members: u32 },
+    /// Siblings: for one `seed` the same declarations in the same order with the same names, array
+    /// lengths and sizes; `variant` only picks the scalar type in each leaf position (all four
+    /// bytes wide), the sampled type of a texture, a storage format, constant values. Arena
+    /// indices, names, offsets and strides of two siblings coincide while their outputs differ -
+    /// whatever a change remembers under a key that is only unique *within* one module
+    /// (a handle, a name, a size) is confused by the next sibling.
+    Sibling { seed: u64, variant: u32 },
     /// Literal source (used by minimised replay files).
     Inline { source: String },
 }
@@ -68,6 +75,7 @@ impl ShaderRef {
                 "x".repeat(*pad as usize),
                 "語".repeat(*kb as usize * 1024 / 3)
             ),
+            ShaderRef::Sibling { seed, variant } => sibling_shader(*seed, *variant),
             ShaderRef::Inline { source } => source.clone(),
         }
     }
@@ -81,6 +89,7 @@ impl ShaderRef {
             ShaderRef::Bulk { structs, members } => format!("bulk:{structs}x{members}"),
             ShaderRef::Twin { seed, variant } => format!("twin:{seed:x}/{variant}"),
             ShaderRef::Dense { kb, pad } => format!("dense:{kb}k+{pad}"),
+            ShaderRef::Sibling { seed, variant } => format!("sibling:{seed:x}/{variant}"),
             ShaderRef::Inline { source } => format!("inline:{}B", source.len()),
         }
     }
@@ -618,6 +627,61 @@ pub fn gen_shader(seed: u64, scale: u32) -> String {
     }
     if crlf {
         out = out.replace('\n', "\r\n");
+    }
+    out
+}
+
+pub fn sibling_shader(seed: u64, variant: u32) -> String {
+    // shape from the seed
+    let mut shape = Rng::new(seed ^ 0x51B1_1235_0000_0007);
+    let n_values = shape.usize(2, 6);
+    let n_outer = shape.usize(2, 4);
+    let n_inner = shape.usize(2, 3);
+    let n_items = shape.usize(1, 4);
+    let n_extra = shape.usize(0, 3);
+    let with_texture = shape.chance(600);
+    let with_vertex = shape.chance(700);
+    let workgroup = [1u32, 8, 64][shape.below(3) as usize];
+    // leaves from the variant: variants 0, 1, 2 use one scalar type everywhere, so that the type
+    // arenas of those siblings line up index by index
+    let mut pick = Rng::new(seed.wrapping_mul(0x9E37_79B9).wrapping_add(variant as u64) ^ 0x1EAF);
+    let scalars = ["f32", "u32", "i32"];
+    let mut leaf = move || -> &'static str {
+        if variant < 3 {
+            scalars[variant as usize]
+        } else {
+            scalars[pick.below(3) as usize]
+        }
+    };
+    let mut out = String::new();
+    let _ = writeln!(out, "struct Elem {{\n    a: vec4<{}>,\n    b: vec4<{}>,\n}}", leaf(), leaf());
+    let _ = writeln!(out, "struct Block {{");
+    let _ = writeln!(out, "    head: vec4<{}>,", leaf());
+    let _ = writeln!(out, "    values: array<vec4<{}>, {n_values}>,", leaf());
+    let _ = writeln!(out, "    grid: array<array<vec4<{}>, {n_inner}>, {n_outer}>,", leaf());
+    let _ = writeln!(out, "    items: array<Elem, {n_items}>,");
+    for e in 0..n_extra {
+        let _ = writeln!(out, "    extra{e}: vec2<{}>,", leaf());
+    }
+    let _ = writeln!(out, "}}");
+    let _ = writeln!(out, "@group(0) @binding(0) var<uniform> block: Block;");
+    let _ = writeln!(out, "@group(0) @binding(1) var<storage, read_write> out_buf: array<vec4<{}>>;", leaf());
+    if with_texture {
+        let _ = writeln!(out, "@group(1) @binding(0) var tex: texture_2d<{}>;", leaf());
+        let format = ["rgba8unorm", "rgba16float", "rgba32float"][(variant % 3) as usize];
+        let _ = writeln!(out, "@group(1) @binding(1) var stex: texture_storage_2d<{format}, write>;");
+    }
+    let _ = writeln!(out, "const SIBLING_LIMIT: u32 = {}u;", 10 + variant % 7);
+    let _ = writeln!(out, "override sibling_scale: f32 = {}.5;", variant % 5);
+    if with_vertex {
+        let _ = writeln!(out, "struct VIn {{\n    @location(0) p: vec4<{}>,\n    @location(1) q: vec2<{}>,\n}}", leaf(), leaf());
+        let _ = writeln!(out, "@vertex\nfn vs_main(in: VIn) -> @builtin(position) vec4<f32> {{\n    let h = block.head;\n    return vec4<f32>(sibling_scale);\n}}");
+    }
+    let _ = writeln!(out, "@compute @workgroup_size({workgroup})\nfn cs_main() {{\n    out_buf[0] = out_buf[1];\n    let g = block.grid[1][1];\n}}");
+    if with_texture {
+        let _ = writeln!(out, "@fragment\nfn fs_main() -> @location(0) vec4<f32> {{\n    let t = textureLoad(tex, vec2<i32>(0, 0), 0);\n    textureStore(stex, vec2<i32>(0, 0), vec4<f32>(0.0));\n    let v = block.values[0];\n    return vec4<f32>(f32(SIBLING_LIMIT));\n}}");
+    } else {
+        let _ = writeln!(out, "@fragment\nfn fs_main() -> @location(0) vec4<f32> {{\n    let v = block.items[0].a;\n    return vec4<f32>(f32(SIBLING_LIMIT));\n}}");
     }
     out
 }
